@@ -716,6 +716,19 @@ func runC17(c *Ctx) {
 		bin("+", bin("+", call("date", dec("2020"), dec("3"), dec("15")), dec("1")), dec("2")), bin("+", call("edate", call("now"), dec("1")), dec("2")),
 		bin("-", bin("-", call("today"), dec("1")), dec("1")), call("proper", bin("+", bin("+", call("now"), dec("5")), dec("3"))),
 	}
+	// operands that begin and end with a parenthesised group but have an operator between them, in every position that binds
+	// more tightly than that operator
+	{
+		par := func(e *lx) *lx { return &lx{kind: "paren", kids: []*lx{e}} }
+		neg := func(e *lx) *lx { return &lx{kind: "neg", kids: []*lx{e}} }
+		ref := func(t string) *lx { return &lx{kind: "ref", text: t} }
+		for _, op := range []string{"+", "*", "^", "&", "-", "/"} {
+			shaped := func() *lx { return bin(op, par(bin("+", dec("1"), dec("2"))), par(bin("+", ref("contact.n"), dec("1")))) }
+			explicit = append(explicit, call("power", dec("2"), shaped()), call("exp", shaped()), bin("*", call("sum", shaped(), dec("3")), dec("2")), neg(call("sum", par(dec("1")), par(dec("2")))),
+				bin("-", dec("10"), shaped()), bin("-", ref("contact.age"), shaped()), call("right", &lx{kind: "str", text: "abcdefghijklmnop"}, shaped()), bin("^", dec("2"), shaped()), bin("*", dec("2"), shaped()),
+				bin("*", call("concatenate", par(dec("1")), par(dec("2"))), dec("3")), call("word", &lx{kind: "str", text: "w1 w2 w3 w4 w5 w6 w7 w8 w9 w10 w11 w12 w13 w14"}, shaped()), neg(shaped()))
+		}
+	}
 	// literal positions in every written form (leading zeros, eight and nine, negative), over texts long enough to tell them apart
 	{
 		str := func(t string) *lx { return &lx{kind: "str", text: t} }
